@@ -82,7 +82,8 @@ REQUIRED = ["Xmp.LoadPost.C03_finish_wf", "Xmp.LoadPost.C03_sequences", "Xmp.Loa
             "Xmp.LoadPost.C03_hdr_rows", "Xmp.LoadPost.C03_count_oblig", "Xmp.LoadPost.Hdr.hdrLimits_sane",
             "Xmp.LoadPost.Hdr.modMagic_sane", "Xmp.LoadPost.C03_player_sub", "Xmp.LoadPost.C03_player_sample",
             "Xmp.LoadPost.C03_player_trusted", "Xmp.LoadPost.Player.guards_present", "Xmp.LoadPost.Player.sidSites_known",
-            "Xmp.LoadPost.Sweep.nameCopies_bounded", "Xmp.LoadPost.Sweep.nameCopies_sizes", "Xmp.LoadPost.Sweep.rowStores_guarded", "Xmp.LoadPost.C03_helpers_track",
+            "Xmp.LoadPost.Sweep.nameCopies_bounded", "Xmp.LoadPost.Sweep.nameCopies_sizes", "Xmp.LoadPost.Sweep.rowStores_guarded",
+            "Xmp.LoadPost.Sweep.subAllocs_consistent", "Xmp.LoadPost.Player.loadPath_no_statics", "Xmp.LoadPost.C03_helpers_track",
             "Xmp.LoadPost.C03_helpers_pattern", "Xmp.LoadPost.allocSites_known", "Xmp.LoadPost.limits_sane"]
 
 # clauses of WF that the common path guarantees for arbitrary raw modules (WFCommon)
@@ -610,6 +611,42 @@ def hdr_compare(job, out_p, hdr_lines, res):
         res["keys"].append((hashlib.sha256(hdr_lines[fp].encode()).hexdigest()[:16], bool(m and m[0] == "ok")))
 
 
+def mt_worker(job):
+    """two contexts loading concurrently (c03_wf mt): every concurrent load must give the dump of the module alone"""
+    import c03_hdrfiles
+    r = random.Random(job["seed"])
+    os.makedirs(job["dir"], exist_ok=True)
+    files = []
+    for k in range(4):
+        # many sequences with different entry points: a scratch table shared between contexts shows at once
+        groups = [[r.randint(0, 3) for _ in range(r.randint(1, 3))] for _ in range(r.randint(40, 60))]
+        fp = os.path.join(job["dir"], "mt-%d.s3m" % k)
+        open(fp, "wb").write(c03_hdrfiles.multiseq_s3m(groups))
+        files.append(fp)
+    files += job["files"]
+    res = {"pairs": 0, "loads": 0, "bad": [], "abort": None, "multiseq_loads": 0}
+    p = subprocess.run([job["harness"], "mt", str(job["iters"]), str(job["maxpairs"])] + files, stdout=subprocess.PIPE,
+                       stderr=subprocess.PIPE, timeout=3000,
+                       env=dict(os.environ, ASAN_OPTIONS="detect_leaks=0:abort_on_error=0:allocator_may_return_null=1"))
+    if p.returncode != 0:
+        err = p.stderr.decode("utf-8", "replace")
+        res["abort"] = {"rc": p.returncode, "stderr": err[-3000:], "sig": vlib.sanitizer_signature(err)}
+    for l in p.stdout.decode("latin-1").splitlines():
+        if l.startswith("mt file="):
+            f = dict(x.split("=", 1) for x in l.split(" first=")[0].split()[1:])
+            res["loads"] += int(f["loads"])
+            if int(f["nseq"]) > 1:
+                res["multiseq_loads"] += int(f["loads"])
+            if int(f["mismatch"]) or int(f["badrc"]):
+                fa, fb = (f[k].replace("%20", " ").replace("%25", "%") for k in ("file", "other"))
+                res["bad"].append({"file": fa, "other": fb, "mismatch": int(f["mismatch"]), "badrc": int(f["badrc"]),
+                                   "first": l.split(" first=", 1)[1][:300],
+                                   "file_hex": open(fa, "rb").read()[:300000].hex(), "other_hex": open(fb, "rb").read()[:300000].hex()})
+        elif l.startswith("mt-done"):
+            res["pairs"] = int(l.split("pairs=")[1])
+    return res
+
+
 def run_jobs(jobs):
     """Run worker jobs as parallel subprocesses of this file (scratch files in a
     directory of this run only, so concurrent runs do not collide)."""
@@ -670,7 +707,7 @@ FIXED = [
 def harnesses():
     dh = hashlib.sha256(open(os.path.join(vlib.HARNESS, "c03_dump.h"), "rb").read()).hexdigest()[:12]
     inj = vlib.build_harness("c03_inject", ["c03_inject.c"], defines=["C03_DUMP_H_HASH=0x" + dh])
-    wf = vlib.build_harness("c03_wf", ["c03_wf.c"], defines=["C03_DUMP_H_HASH=0x" + dh])
+    wf = vlib.build_harness("c03_wf", ["c03_wf.c"], defines=["C03_DUMP_H_HASH=0x" + dh], libs=["-lpthread"])
     return inj, wf
 
 
@@ -691,6 +728,8 @@ def run(ck):
     ck.note("loader_name_writes", {"sites": len(nc["names"]), "bound_visible": sum(1 for t in nc["names"] if t[5] is not None),
                                    "dynamic": ["%s:%s:%s" % t[:3] for t in nc["names"] if t[5] is None]})
     ck.note("loader_row_stores", ["%s:%s:%s:%s" % t for t in nc["rows"]])
+    ck.note("loader_sub_allocs", {c: sum(1 for t in nc["subs"] if t[3] == c) for c in ("lvalue", "sameExpr", "literal", "other")})
+    ck.note("load_path_writable_data", ["%s:%s:%s" % t for t in gd["statics"]])
     ck.note("limits_stale_epilogue_literals", lim["stale"])
     ck.note("header_limits_stale", hl["stale"])
     ck.note("alloc_sites_direct", ["%s:%s:%s" % s for s in sites["direct"]])
@@ -718,6 +757,20 @@ def run(ck):
     syn_dir = os.path.join(WORK, "syn-%d" % os.getpid())
     syn = synthmods.write_set(random.Random(ck.seed * 7919 + 303), syn_dir, 96 if quick else 960)
     syn += synthmods.write_set_extra(random.Random(ck.seed * 104729 + 303), syn_dir, 36 if quick else 360, prefix="syx")
+    # the payload of every MUSE (J2B) container as a plain Galaxy module: the format-aware mutants then reach it
+    import zlib
+    for fp in list(files):
+        try:
+            head = open(fp, "rb").read(24)
+            if head[:4] == b"MUSE":
+                data = zlib.decompress(open(fp, "rb").read()[24:])
+                if data[:4] == b"RIFF":
+                    dp = os.path.join(syn_dir, "muse-" + os.path.basename(fp) + ".am")
+                    os.makedirs(syn_dir, exist_ok=True)
+                    open(dp, "wb").write(data)
+                    syn.append(dp)
+        except Exception:
+            pass
     files = files + syn
     ck.note("synthetic_modules", len(syn))
     nmut = 3 if quick else 40
@@ -730,7 +783,25 @@ def run(ck):
     hjobs = [{"kind": "hdr", "shard": i, "seed": ck.seed * 7919 + 17 * i + 1, "n": nh, "fmt": fmt, "harness": wf,
               "driver": driver, "hdr_dir": hdr_dir, "nmut": 0}
              for i, fmt in enumerate(("mod", "s3m", "xm", "it"))]
-    results = run_jobs(jobs + wjobs + hjobs)
+    # ---- (d) two contexts loading concurrently: the load path shares nothing between contexts ----
+    mfiles = [f for f in vlib.corpus_files()]
+    random.Random(ck.seed * 31 + 5).shuffle(mfiles)
+    mjobs = [{"kind": "mt", "shard": 0, "seed": ck.seed * 977 + 3, "harness": wf, "dir": os.path.join(hdr_dir, "mt"),
+              "files": mfiles[:60 if quick else 400], "iters": 60 if quick else 300, "maxpairs": 10 if quick else 60}]
+    results = run_jobs(jobs + wjobs + hjobs + mjobs)
+    rmt = results[-1]
+    results = results[:-1]
+    if rmt["abort"]:
+        ck.violation("mt-abort:" + rmt["abort"]["sig"], {"kind": "abort", "stderr": rmt["abort"]["stderr"]},
+                     "two contexts loading concurrently: the harness aborted (rc=%d): %s" % (rmt["abort"]["rc"], rmt["abort"]["sig"]))
+    for b in rmt["bad"]:
+        ck.violation("mt:shared-load-state", {"kind": "mt", "file": b["file"], "other": b["other"], "file_hex": b["file_hex"],
+                                               "other_hex": b["other_hex"], "first": b["first"]},
+                     "%s loaded while %s was being loaded in another thread: %d of the loads returning 0 differ from the module "
+                     "loaded alone (first differing dump line: %s), %d failed" % (
+                         b["file"], b["other"], b["mismatch"], b["first"], b["badrc"]))
+    ck.note("concurrent_loads", {"pairs": rmt["pairs"], "loads": rmt["loads"], "of_multi_sequence_modules": rmt["multiseq_loads"]})
+    ck.cov["traces_validated_against_impl"] += rmt["loads"] if not rmt["bad"] else 0
     rin, rwf, rhdr = results[:len(jobs)], results[len(jobs):len(jobs) + len(wjobs)], results[len(jobs) + len(wjobs):]
     hstat = {}
     for job, r in zip(hjobs, rhdr):
@@ -878,6 +949,11 @@ def run(ck):
         "header tie: the generated files are valid apart from their header counts; XM sample count, MOD Mod's-Grave and "
         "tracker-identification inputs are parameters of the header models",
     ]
+    # ---- sub-checks with their own Lean modules / drivers (tools/c03_core.py: the four core loaders' bodies, C03 x C19) ----
+    import importlib.util
+    for sub in ("c03_core",):
+        if importlib.util.find_spec(sub) is not None:
+            importlib.import_module(sub).run(ck)
 
 
 def replay(ck, rp):
@@ -927,6 +1003,19 @@ def replay(ck, rp):
         if bad:
             print("VIOLATION property=C03 replay=%s" % t["file"])
         return 1 if bad else 0
+    if isinstance(r, dict) and r.get("kind") == "mt":
+        d = os.path.join(WORK, "replay.mt")
+        os.makedirs(d, exist_ok=True)
+        fa, fb = os.path.join(d, "a-" + os.path.basename(r["file"])), os.path.join(d, "b-" + os.path.basename(r["other"]))
+        open(fa, "wb").write(bytes.fromhex(r["file_hex"]))
+        open(fb, "wb").write(bytes.fromhex(r["other_hex"]))
+        rc, out, err = vlib.run_exe(wf, ["mt", "400", "1", fa, fb])
+        text = out.decode("latin-1")
+        print(text[-2000:])
+        bad = rc != 0 or any(l.startswith("mt file=") and (" mismatch=0 " not in l or " badrc=0 " not in l) for l in text.splitlines())
+        if bad:
+            print("VIOLATION property=C03 replay=%s + %s (concurrent loads)" % (fa, fb))
+        return 1 if bad else 0
     print(json.dumps(r, indent=1)[:4000])
     print("this replay names a broken theorem / correspondence or a harness abort; re-run: python3 tools/check.py C03")
     return 1
@@ -934,5 +1023,5 @@ def replay(ck, rp):
 
 if __name__ == "__main__":
     job = json.load(open(sys.argv[1]))
-    res = inject_worker(job) if job["kind"] == "inject" else wf_worker(job)     # kinds wf and hdr
+    res = inject_worker(job) if job["kind"] == "inject" else mt_worker(job) if job["kind"] == "mt" else wf_worker(job)   # wf, hdr
     sys.stdout.write(json.dumps(res))
